@@ -637,7 +637,11 @@ func runE1(t *testing.T, c *Case, hooks profileHooks) *Outcome {
 				panic(r)
 			}
 		}()
-		if pm := c.knob("preempt_permille", 0); pm > 0 {
+		if c.knob("sched", 0) == 1 {
+			prev := runtime.GOMAXPROCS(1)
+			defer runtime.GOMAXPROCS(prev)
+		}
+		if pm := c.knob("preempt_permille", 0); pm > 0 && c.knob("sched", 0) == 0 {
 			// seeded preemption: at every instrumented statement of the broker (lockstep build) the
 			// running goroutine gives way with probability pm/1000, decided by a counter-keyed hash
 			// of the case seed; with one P the order of yield calls, and so the whole schedule, is a
@@ -661,6 +665,11 @@ func runE1(t *testing.T, c *Case, hooks profileHooks) *Outcome {
 		}
 		body := func(t *testing.T) {
 			synctest.Test(t, func(t *testing.T) {
+				defer func() {
+					if ctl != nil { // newWorld did not get as far as run()
+						ctlStop()
+					}
+				}()
 				w = newWorld(t, c, o)
 				defer w.teardown()
 				if hooks.onStart != nil {
@@ -699,6 +708,186 @@ func runE1(t *testing.T, c *Case, hooks profileHooks) *Outcome {
 		o.Stats[k] += v
 	}
 	return o
+}
+
+
+// ---------------------------------------------------------------------------------------
+// controlled scheduling of the brokers' goroutines (knob sched=1, statement-instrumented build)
+//
+// Every goroutine that executes broker code parks at each instrumented statement (and at each
+// failed try-lock) on a channel of its own - a durable block for synctest. The driver, which
+// only runs when every goroutine of the bubble is durably blocked, picks one parked goroutine
+// from its PRNG, releases it, and waits for quiescence again: between two decisions exactly one
+// goroutine advances by one broker statement (goroutines it wakes run library code up to their
+// own next broker statement and park there). One seed is one interleaving.
+
+type ctlG struct {
+	ch      chan struct{}
+	site    int
+	blocked bool
+	seq     int64
+	gid     int64 // goroutine id: creation order, the stable tie-break between goroutines at one site
+}
+
+type e1ctl struct {
+	mu        sync.Mutex
+	parked    []*ctlG
+	driver    int32 // 1 while the driver goroutine itself is running (it calls broker code too)
+	holder    int64 // goroutine released last: it may pass budget further statements without parking
+	budget    int64
+	off       int32
+	seq       int64
+	seed      uint64
+	n         uint64
+	decisions int64
+	maxParked int
+	trace     uint64
+	w         *world
+}
+
+var ctl *e1ctl
+var schedTrace = os.Getenv("VERIF_SCHED_TRACE") != ""
+
+func ctlStart(w *world) {
+	ctl = &e1ctl{seed: mix(w.c.Seed, "sched"), w: w, driver: 1}
+	verifrt.YieldHook = ctlHook
+}
+
+func ctlStop() {
+	c := ctl
+	if c == nil {
+		return
+	}
+	atomic.StoreInt32(&c.off, 1)
+	c.mu.Lock()
+	ps := c.parked
+	c.parked = nil
+	c.mu.Unlock()
+	for _, g := range ps {
+		close(g.ch)
+	}
+	c.w.o.Stats["sched.decisions"] += c.decisions
+	if int64(c.maxParked) > c.w.o.Stats["sched.max_parked"] {
+		c.w.o.Stats["sched.max_parked"] = int64(c.maxParked)
+	}
+	c.w.orderH = append(c.w.orderH, fmt.Sprintf("sched%x", c.trace))
+	verifrt.YieldHook = nil
+	ctl = nil
+}
+
+func ctlHook(site int, blocked bool) {
+	c := ctl
+	if c == nil || atomic.LoadInt32(&c.off) == 1 || atomic.LoadInt32(&c.driver) == 1 {
+		if blocked {
+			runtime.Gosched()
+		}
+		return
+	}
+	gid := goid()
+	if !blocked && gid == atomic.LoadInt64(&c.holder) && atomic.AddInt64(&c.budget, -1) >= 0 {
+		return // still its turn: only this goroutine has been running broker code since the decision
+	}
+	g := &ctlG{ch: make(chan struct{}), site: site, blocked: blocked, gid: gid}
+	c.mu.Lock()
+	if atomic.LoadInt32(&c.off) == 1 {
+		c.mu.Unlock()
+		return
+	}
+	c.seq++
+	g.seq = c.seq
+	c.parked = append(c.parked, g)
+	c.mu.Unlock()
+	select {
+	case c.w.notify <- struct{}{}:
+	default:
+	}
+	<-g.ch
+}
+
+// quiesce: wait until every goroutine of the bubble is durably blocked; under controlled
+// scheduling, keep releasing parked goroutines one at a time until none is left (or only
+// goroutines waiting for a lock whose holder is not runnable).
+func (w *world) quiesce() {
+	c := ctl
+	if c == nil {
+		synctest.Wait()
+		return
+	}
+	blockedStreak := 0
+	for {
+		atomic.StoreInt32(&c.driver, 0)
+		synctest.Wait()
+		atomic.StoreInt32(&c.driver, 1)
+		c.mu.Lock()
+		if len(c.parked) == 0 {
+			c.mu.Unlock()
+			return
+		}
+		if len(c.parked) > c.maxParked {
+			c.maxParked = len(c.parked)
+		}
+		allBlocked := true
+		for _, g := range c.parked {
+			if !g.blocked {
+				allBlocked = false
+			}
+		}
+		if allBlocked && blockedStreak > 2*len(c.parked) {
+			// each has retried its lock since anything else moved: the holder is waiting for
+			// something only time or the next event can bring
+			c.mu.Unlock()
+			return
+		}
+		sort.SliceStable(c.parked, func(i, j int) bool {
+			a, b := c.parked[i], c.parked[j]
+			if a.site != b.site {
+				return a.site < b.site
+			}
+			return a.gid < b.gid
+		})
+		c.n++
+		k := int(splitmix(c.seed+c.n*0x9e3779b97f4a7c15) % uint64(len(c.parked)))
+		g := c.parked[k]
+		c.parked = append(c.parked[:k], c.parked[k+1:]...)
+		c.decisions++
+		// how long it may run on: mostly a statement or a few, sometimes until it blocks (a
+		// goroutine held back across a long stretch of another one is what uniform
+		// statement-by-statement choice practically never produces)
+		rb := splitmix(c.seed ^ c.n*0xd6e8feb86659fd93)
+		var budget int64
+		switch rb % 8 {
+		case 0, 1, 2:
+			budget = 0
+		case 3, 4:
+			budget = 1 + int64((rb>>8)%8)
+		case 5:
+			budget = 10 + int64((rb>>8)%50)
+		case 6:
+			budget = 100 + int64((rb>>8)%400)
+		default:
+			budget = 1 << 40
+		}
+		atomic.StoreInt64(&c.holder, g.gid)
+		atomic.StoreInt64(&c.budget, budget)
+		c.trace = splitmix(c.trace ^ uint64(g.site+2)*31 ^ uint64(k) ^ uint64(budget)<<20)
+		if schedTrace {
+			var sites []int
+			for _, x := range c.parked {
+				sites = append(sites, x.site)
+			}
+			fmt.Fprintf(os.Stderr, "SCHED %d pick site=%d blocked=%v k=%d rest=%v t=%d\n", c.decisions, g.site, g.blocked, k, sites, w.nowMs())
+		}
+		c.mu.Unlock()
+		if g.blocked {
+			blockedStreak++
+		} else {
+			blockedStreak = 0
+		}
+		if c.decisions > 3_000_000 {
+			panic("harness: scheduling decision cap exceeded")
+		}
+		g.ch <- struct{}{}
+	}
 }
 
 var preemptions int64
@@ -793,10 +982,15 @@ func newWorld(t *testing.T, c *Case, o *Outcome) *world {
 			w.nodes[i].known[j] = true
 		}
 	}
+	if c.knob("sched", 0) == 1 {
+		// from the first broker goroutine on: the order in which the 20 publish workers queue up
+		// on their channel is part of the schedule
+		ctlStart(w)
+	}
 	for _, n := range w.nodes {
 		w.startNode(n, authh)
 	}
-	synctest.Wait()
+	w.quiesce()
 	// The brokers' periodic timers (100 ms log poller, 1 s expiry sweep) are anchored at this
 	// instant. Everything the simulator does happens on a grid shifted by a fraction of a
 	// millisecond, so that a simulator event never falls on the same instant as one of those
@@ -832,6 +1026,10 @@ func (w *world) teardown() {
 
 func (w *world) run(hooks profileHooks) {
 	c := w.c
+	if ctl != nil {
+		defer ctlStop()
+		w.quiesce()
+	}
 	if len(c.Steps) > 0 {
 		w.push(&event{at: c.Steps[0].At, kind: "step", step: 0})
 	}
@@ -862,12 +1060,15 @@ func (w *world) run(hooks profileHooks) {
 				d = 500 * time.Millisecond
 			}
 			tm := time.NewTimer(d)
+			if ctl != nil {
+				atomic.StoreInt32(&ctl.driver, 0)
+			}
 			select {
 			case <-tm.C:
 			case <-w.notify:
 				tm.Stop()
 			}
-			synctest.Wait()
+			w.quiesce()
 			w.collect()
 			if w.events.Len() > 0 && w.events[0].at < e.at {
 				heap.Push(&w.events, e) // keeps its sequence number
@@ -890,7 +1091,7 @@ func (w *world) run(hooks profileHooks) {
 			e = &event{at: e.at, kind: "step", step: e.step + 1}
 			w.apply(e)
 		}
-		synctest.Wait()
+		w.quiesce()
 		w.collect()
 		if hooks.onStep != nil {
 			hooks.onStep(w)
